@@ -112,7 +112,7 @@ def tlc(module, cfg, workers=None, timeout=1200, env=None, args=(), heap=None, s
     _tlc_counter[0] += 1
     meta = os.path.join(scratch(), "tlcmeta%d" % _tlc_counter[0])
     cfgp = cfg if os.path.isabs(cfg) else os.path.join(SPEC, cfg)
-    cmd = ["java", "-XX:+UseParallelGC"]
+    cmd = ["java", "-XX:+UseParallelGC", "-Xss64m"]
     if heap:
         cmd.append("-Xmx%s" % heap)
     cmd += ["-cp", "/opt/veriftools/tla/tla2tools.jar:/opt/veriftools/tla/CommunityModules-deps.jar",
@@ -150,7 +150,7 @@ def tlc(module, cfg, workers=None, timeout=1200, env=None, args=(), heap=None, s
         r.violated = "Temporal"
     if rc != 0 and r.violated is None:
         m3 = re.search(r"Error: (.*)", out)
-        r.error = (m3.group(1) if m3 else "exit %d" % rc) + "\n" + out[-3000:]
+        r.error = (m3.group(1) if m3 else "exit %d" % rc) + "\n" + (out[m3.start():m3.start() + 2500] if m3 else out[-3000:])
     r.prints = re.findall(r"^<<.*>>$", out, flags=re.M)
     if coverage:
         for mm in re.finditer(r"^<(\w+) line \d+, col \d+ to line \d+, col \d+ of module (\w+)>: (\d+):(\d+)", out, flags=re.M):
@@ -275,7 +275,8 @@ class Check:
                     "known_findings_seen": []}
         self.assumptions = []
         self.violations = []
-        self.known = [k for k in load_known_findings() if k["property"] == pid and k.get("status") == "known"]
+        self.known = [k for k in load_known_findings()
+                      if (k["property"] == pid or pid in k.get("also", [])) and k.get("status") == "known"]
         self.known_seen = {}
         self.notes = []
 
